@@ -87,6 +87,9 @@ struct World<'a> {
     stop: bool,
     foreign_reported: bool,
     corrupt_pending_flush: bool,
+    /// a call that can trim peers among stamps of this run took longer than STAMP_GAP
+    race_suspect: bool,
+    last_stamp: Instant,
 }
 
 fn snap_of(data: &CacheData) -> Snap {
@@ -121,14 +124,48 @@ fn panic_text(p: Box<dyn std::any::Any + Send>) -> String {
         .unwrap_or_else(|| "panic".into())
 }
 
+/// Two stamps taken by the code under test during a run are at least this far apart in real time.
+const STAMP_GAP: Duration = Duration::from_micros(100);
+
 pub fn execute(plan: &Plan, entropy: u64) -> RunReport {
+    // `try_remove_oldest_peers` ranks peers by `last_seen.elapsed()` evaluated one after the other, so a
+    // thread preempted between two evaluations for longer than the distance of two stamps evicts the
+    // wrong peer. The sim keeps stamps STAMP_GAP apart, measures every call that can trim peers, and
+    // re-executes the plan when such a call took long enough for the wall clock to have decided.
+    let mut reruns = 0;
+    loop {
+        // a re-execution needs a fresh OS thread like the first one (std caches the HashMap keys per thread)
+        let (mut rep, suspect) = if reruns == 0 {
+            execute_once(plan, entropy)
+        } else {
+            let p = plan.clone();
+            match simkit::rt::on_fresh_thread(entropy, move || execute_once(&p, entropy)) {
+                simkit::rt::ThreadOutcome::Done(x) => x,
+                simkit::rt::ThreadOutcome::Panicked(msg) => resume_unwind(Box::new(msg)),
+            }
+        };
+        if suspect && reruns < 6 && rep.harness_error.is_none() {
+            reruns += 1;
+            continue;
+        }
+        if suspect && rep.harness_error.is_none() && rep.violations.is_empty() {
+            rep.harness_error = Some("every execution of this plan was preempted inside a clock-sensitive call".into());
+        }
+        if reruns > 0 {
+            rep.probe_n("reexecuted_after_preemption_in_clock_sensitive_call", reruns);
+        }
+        return rep;
+    }
+}
+
+fn execute_once(plan: &Plan, entropy: u64) -> (RunReport, bool) {
     let n = RUN_COUNTER.fetch_add(1, Ordering::SeqCst);
     let dir = PathBuf::from(format!("/dev/shm/antsim/{}/bootcache-{n}", std::process::id()));
     let _ = std::fs::remove_dir_all(&dir);
     if let Err(e) = std::fs::create_dir_all(&dir) {
         let mut r = RunReport::default();
         r.harness_error = Some(format!("cannot create run directory: {e}"));
-        return r;
+        return (r, false);
     }
     let _guard = RunDir(dir.clone());
     let started = Instant::now();
@@ -142,10 +179,7 @@ pub fn execute(plan: &Plan, entropy: u64) -> RunReport {
     if started.elapsed() > Duration::from_secs(20) && w.rep.harness_error.is_none() {
         w.rep.harness_error = Some("run took more than 20 s of real time: the wall clock could have decided a comparison".into());
     }
-    if let Ok(d) = std::env::var("BC_DUMP") {
-        let _ = std::fs::write(format!("{d}/{}-{:016x}.txt", plan.ukey, w.rep.log_fp()), w.rep.log.join("\n"));
-    }
-    w.rep
+    (w.rep, w.race_suspect)
 }
 
 impl<'a> World<'a> {
@@ -190,6 +224,8 @@ impl<'a> World<'a> {
             stop: false,
             foreign_reported: false,
             corrupt_pending_flush: false,
+            race_suspect: false,
+            last_stamp: Instant::now(),
         }
     }
 
@@ -217,6 +253,32 @@ impl<'a> World<'a> {
                 self.stop = true;
                 None
             }
+        }
+    }
+
+    /// Keep two stamps of the code under test at least STAMP_GAP apart.
+    fn before_stamping_op(&self) {
+        while self.last_stamp.elapsed() < STAMP_GAP {
+            std::hint::spin_loop();
+        }
+    }
+
+    /// `input` went through a call that took `took`: could the call have trimmed peers whose stamps
+    /// were taken during this run? Then a long call may have been decided by the wall clock.
+    fn clock_sensitive(&mut self, input: &Snap, extra_now_peers: usize, took: Duration) {
+        if took < STAMP_GAP.mul_f32(0.8) {
+            return;
+        }
+        let now = SystemTime::now();
+        let elig = input.eligible(now, self.expiry);
+        let recent = elig
+            .peers
+            .values()
+            .filter(|v| v.iter().any(|(_, e)| fmt_ls(e.ls, self.base) == "now"))
+            .count()
+            + extra_now_peers;
+        if recent >= 2 && elig.n_nonempty_peers() + extra_now_peers > self.plan.max_peers {
+            self.race_suspect = true;
         }
     }
 
@@ -397,7 +459,12 @@ impl<'a> World<'a> {
     fn probe_load(&mut self) {
         let own = self.last_bytes.as_ref().and_then(|b| parse_file(b));
         let cfg = self.cfg.clone();
+        let t0 = Instant::now();
         let res = catch_unwind(AssertUnwindSafe(|| BootstrapCacheStore::load_cache_data(&cfg)));
+        let took = t0.elapsed();
+        if let Some(o) = &own {
+            self.clock_sensitive(o, 0, took);
+        }
         let writers = if self.flights.is_empty() { "none_in_flight" } else { "writers_in_flight" };
         match res {
             Err(p) => {
@@ -510,7 +577,12 @@ impl<'a> World<'a> {
             SHAPE_RELAYED => Some(good_addr(self.plan.ukey, relay, var)),
             _ => None,
         };
+        self.before_stamping_op();
+        let t0 = Instant::now();
         self.procs[p].as_mut().unwrap().add_addr(m);
+        let took = t0.elapsed();
+        self.last_stamp = Instant::now();
+        self.clock_sensitive(&before, 1, took);
         self.rep.ops += 1;
         let after = self.mem_snap(p).unwrap();
         self.rep.log(format!("add p{p} P{peer}a{var} shape={} -> {}", shape_name(shape), self.render(&after)));
@@ -554,9 +626,11 @@ impl<'a> World<'a> {
             return;
         }
         let addr = Multiaddr::from_str(&good_addr(self.plan.ukey, peer, var)).expect("good addr");
+        self.before_stamping_op();
         for _ in 0..times.max(1) {
             self.procs[p].as_mut().unwrap().update_addr_status(&addr, success);
         }
+        self.last_stamp = Instant::now();
         self.rep.ops += 1;
         let after = self.mem_snap(p).unwrap();
         self.rep.log(format!("status p{p} P{peer}a{var} success={success} x{} -> {}", times.max(1), self.render(&after)));
@@ -584,7 +658,10 @@ impl<'a> World<'a> {
             self.rep.log(format!("cleanup p{p}: process busy flushing, skipped"));
             return;
         };
+        let t0 = Instant::now();
         self.procs[p].as_mut().unwrap().perform_cleanup();
+        let took = t0.elapsed();
+        self.clock_sensitive(&before, 0, took);
         self.rep.ops += 1;
         let after = self.mem_snap(p).unwrap();
         self.rep.log(format!("cleanup p{p} -> {}", self.render(&after)));
@@ -828,6 +905,30 @@ impl<'a> World<'a> {
     /// The writer `label` has just run one segment (from `site_before` to its next gate or to the end).
     fn after_release(&mut self, label: u64, site_before: &'static str) {
         let what = format!("w{label} after {site_before}");
+        if let (Some(took), Some(fl)) = (self.ctrl.last_busy(label), self.flights.iter().find(|f| f.label == label)) {
+            // segments that clean up: the load (file side) and merge + clean-up (both sides)
+            let input = match (site_before, fl.kind) {
+                ("start", Kind::Flush { .. }) => fl.f0.clone(),
+                ("flush.loaded", _) | ("flush.load_failed", _) => {
+                    let mut u = fl.mem.clone();
+                    if let Some(f0) = &fl.f0 {
+                        for (k, list) in &f0.peers {
+                            let dst = u.peers.entry(k.clone()).or_default();
+                            for (a, e) in list {
+                                if !dst.iter().any(|(x, _)| x == a) {
+                                    dst.push((a.clone(), e.clone()));
+                                }
+                            }
+                        }
+                    }
+                    Some(u)
+                }
+                _ => None,
+            };
+            if let Some(input) = input {
+                self.clock_sensitive(&input, 0, took);
+            }
+        }
         if self.ctrl.is_finished(label) {
             self.finish_flight(label, site_before);
         } else {
